@@ -25,7 +25,9 @@ def cases(draw, mechs=MECHS):
             'eps': draw(logf(0.05, 10.0)) if draw(st.integers(0, 7)) else draw(logf(3e-4, 0.05)),
             'delta': draw(st.sampled_from([1e-9, 1e-6, 1e-3, 1e-12, 1e-10, 1e-14])),
             'np_seed': draw(st.integers(0, 2**31 - 1)), 'nb_seed': draw(st.integers(0, 2**31 - 1)),
-            'neighbour': draw(st.sampled_from(['add', 'remove']))}
+            'neighbour': draw(st.sampled_from(['add', 'remove'])),
+            # record weights in (0, 1] (sensitivities still hold); the record that differs carries the largest weight
+            'weights': draw(st.sampled_from([None, None, None, 'frac']))}
     if mech == 'aim':
         case['rounds'] = draw(st.one_of(st.none(), st.integers(1, 12)))
         wl = []
@@ -47,6 +49,8 @@ def cases(draw, mechs=MECHS):
         case['alpha'] = draw(st.floats(0.1, 0.95))
         if case['noise'] == 'laplace' and draw(st.booleans()):
             case['delta'] = 0.0
+        elif case['noise'] == 'gaussian' and draw(st.integers(0, 5)) == 0:
+            case['delta'] = 0.0       # the function's own default; Gaussian noise cannot meet a pure-DP budget
         wl = []
         for _ in range(draw(st.integers(1, 4))):
             cl = draw(gen.ordered_subset(names, 1, min(2, k)))
@@ -91,9 +95,25 @@ def make_data(case):
     return recs, recs2
 
 
-def to_dataset(mbi, recs, attrs, shape):
+def to_dataset(mbi, recs, attrs, shape, weights=None):
     import pandas as pd
-    return mbi.Dataset(pd.DataFrame(recs, columns=attrs), mbi.Domain(attrs, shape))
+    return mbi.Dataset(pd.DataFrame(recs, columns=attrs), mbi.Domain(attrs, shape), weights)
+
+
+def make_weights(case, recs, recs2):
+    """-> (w, w2) or (None, None).  Common records weigh 0.25 / 0.5, the differing record 1.0."""
+    if case.get('weights') != 'frac' or case['neighbour'] == 'replace':
+        return None, None
+    rng = np.random.Generator(np.random.PCG64(case['nb_seed'] + 5))
+    n, n2 = recs.shape[0], recs2.shape[0]
+    if n2 == n + 1:                       # add: the new record is the last row of recs2
+        w = rng.choice([0.25, 0.5], size=n)
+        return w, np.concatenate([w, [1.0]])
+    if n2 == n - 1:                       # remove: find the removed row
+        i = next((k for k in range(n2) if not np.array_equal(recs[k], recs2[k])), n2)
+        w2 = rng.choice([0.25, 0.5], size=n2)
+        return np.concatenate([w2[:i], [1.0], w2[i:]]), w2
+    return None, None
 
 
 def ref_cdp_rho(eps, delta):
@@ -166,8 +186,9 @@ def coupled(case):
     attrs, shape = case['domain']['attrs'], case['domain']['shape']
     recs, recs2 = make_data(case)
     thr = adagrid_threshold(case, recs)
-    D = to_dataset(mbi, recs, attrs, shape)
-    D2 = to_dataset(mbi, recs2, attrs, shape)
+    w, w2 = make_weights(case, recs, recs2)
+    D = to_dataset(mbi, recs, attrs, shape, w)
+    D2 = to_dataset(mbi, recs2, attrs, shape, w2)
     np.random.seed(case['np_seed'])
     with rngtap.Tap('record') as t1:
         s1 = invoke(case, D, thr)
